@@ -3,6 +3,6 @@
 import json, glob
 print("| id | tier | level | evaluations | distinct outcomes | non-trivial | states / transitions / traces | exhaustive | wall s |")
 print("|---|---|---|---|---|---|---|---|---|")
-for f in sorted(glob.glob("/verif/evidence/*.json")):
+for f in sorted(glob.glob("/verif/results/*.json")):
     e = json.load(open(f)); c = e["coverage"]
     print(f"| {e['property_id']} | {e['tier']} | {e['level']} | {c.get('evaluations')} | {c.get('distinct_outcomes')} | {c.get('distinct_nontrivial')} | {c.get('states','-')} / {c.get('transitions','-')} / {c.get('traces_validated_against_impl','-')} | {c.get('exhaustive')} | {e['wall_s']:.1f} |")
